@@ -164,7 +164,7 @@ func runSeed(prop, repo, verif, patch string) seedResult {
 			sub = strings.Join(fields[2:], " ")
 		}
 		for _, o := range viol {
-			if (rule == "" || o.Rule == rule) && strings.Contains(o.Func+" "+o.Construct, sub) {
+			if (rule == "" || strings.HasPrefix(o.Rule, rule)) && strings.Contains(o.Func+" "+o.Construct, sub) {
 				res.Result = "fired"
 				res.Detail = fmt.Sprintf("%s %s %s at %s", o.Rule, o.Func, o.Construct, o.Pos)
 				break
